@@ -107,11 +107,11 @@ class _Blank(ast.NodeTransformer):
         return ast.arg(arg="_", annotation=None)
 
 
-def _sig(kind, expr, pos, localnames) -> str:
+def _sig(kind, expr, pos, localnames, params=()) -> str:
     if expr is None:
         shape = ""
     else:
-        inner = set()
+        inner = set(params)   # the function's own parameters are blanked too: a renamed parameter leaves the signature alone
         for x in ast.walk(expr):
             if isinstance(x, _SCOPES):
                 inner |= _params(x)
@@ -126,7 +126,8 @@ def _sig(kind, expr, pos, localnames) -> str:
 def bindings(fn) -> List[List[str]]:
     ss = sites(fn)
     names = {s[0] for s in ss}
-    return [[nm, _sig(kind, e, pos, names)] for nm, kind, e, pos in ss]
+    ps = _params(fn)
+    return [[nm, _sig(kind, e, pos, names, ps)] for nm, kind, e, pos in ss]
 
 
 _BASE = None
